@@ -52,6 +52,31 @@ def run(ck: Checker):
         if p.fin is None:
             c05.check_stop_flag(ck, 'C07-5', p)
             c05.check_join_safety(ck, 'C07-5', p)
+    ck.rule('C07-9', 'the late outcome of an abandoned request is discarded whatever it is: in the clean-up of async_fifo_stream every cancelled task is awaited inside a try that swallows CancelledError AND Exception — a request that had already failed when the stream was closed must not re-raise its error out of aclose() (and skip the rest of the clean-up)')
+
+    afs = ck.repo.func(STREAMER, 'async_fifo_stream')
+    probs9, n9 = [], 0
+    for tr in [t_ for t_ in ast.walk(afs.node) if isinstance(t_, ast.Try) and t_.finalbody]:
+        for fr in [f_ for st_ in tr.finalbody for f_ in ast.walk(st_) if isinstance(f_, (ast.For, ast.AsyncFor)) and isinstance(f_.target, ast.Name)]:
+            lv = fr.target.id
+            for inner in [t_ for st_ in fr.body for t_ in ast.walk(st_)]:
+                if isinstance(inner, ast.Await) and isinstance(inner.value, ast.Name) and inner.value.id == lv:
+                    n9 += 1
+                    # the try statements of the loop body that contain this await
+                    covers = set()
+                    for t2 in [t_ for st_ in fr.body for t_ in ast.walk(st_) if isinstance(t_, ast.Try)]:
+                        if any(x is inner for b_ in t2.body for x in ast.walk(b_)):
+                            for h in t2.handlers:
+                                if any(isinstance(x, ast.Raise) for b_ in h.body for x in ast.walk(b_)):
+                                    continue
+                                if h.type is None:
+                                    covers |= {'BaseException'}
+                                for e in (h.type.elts if isinstance(h.type, ast.Tuple) else ([h.type] if h.type is not None else [])):
+                                    covers.add((dotted(e) or '?').split('.')[-1])
+                    ok9 = 'BaseException' in covers or ({'CancelledError', 'Exception'} <= covers)
+                    if not ok9:
+                        probs9.append(f'L{inner.lineno}: `await {lv}` in the clean-up swallows only {sorted(covers) or "nothing"}: the error of a request that had already failed leaves the closing generator')
+    ck.ob('C07-9', afs, (afs.node.lineno, 'clean-up awaits'), not probs9, '; '.join(probs9) if probs9 else f'{n9} await(s) of cancelled tasks in the clean-up, each swallowing CancelledError and Exception')
     # "the server still shuts down normally": an abandoned request may still be inside an earlier stage when the with-block
     # is left; its intermediate result must find the next stage alive, i.e. compound servlets stop their members in start
     # order and every service loop forwards the end sentinel (the C11-4 / C11-6 obligations)
